@@ -354,6 +354,29 @@ def onSuffixPd (pd : Pd) (n mrows : Nat) (kind : Nat) (entries : List (Nat × Ra
   if kind % 4 == 0 then dense nmax (entries.map (fun e => (pd.vpermInv.getD e.1 0, e.2)))
   else dense nmax entries
 
+/-! ## File-system state of a stub: the auxiliary name files -/
+
+/-- what is on disk next to `<stub>.nl`: the lines of `<stub>.col` / `<stub>.row`, `none` = no such file -/
+structure NameFiles where
+  col : Option (List String)
+  row : Option (List String)
+  deriving Repr, DecidableEq, Inhabited
+
+/-- `StringFileWriter` (nl-writer2.hpp) for one file: the file is opened (created / truncated) at the first `Write`,
+i.e. only when the feeder has names (`some l`: the file then holds exactly `l`); a writer that was never opened REMOVES the
+file in its destructor (`if (!cnt_ && !fTriedOpen_) opener_(true)`), whatever an earlier model left there -/
+def writeNameFile (old : Option (List String)) (fed : Option (List String)) : Option (List String) :=
+  match fed with
+  | some l => let _ := old; some l      -- truncated and rewritten: the old content is gone
+  | none => none                        -- never opened: removed
+
+/-- `NLWriter2::WriteAuxFiles` for the easy feeder: `.row` (row names + objective name) and `.col` -/
+def writeNameFiles (old : NameFiles) (m : MatrixModel) : NameFiles :=
+  { col := writeNameFile old.col (feedColNames m), row := writeNameFile old.row (feedRowObjNames m) }
+
+/-- models written one after the other to the SAME stub -/
+def runStubHistory (fs0 : NameFiles) (ms : List MatrixModel) : NameFiles := ms.foldl writeNameFiles fs0
+
 /-- `OnSuffix` index test `val.first<0 || val.first>=nmax` (indices are naturals here) -/
 def solSuffixOk (n mrows kind : Nat) (entries : List (Nat × Rat)) : Bool :=
   let nmax := match kind % 4 with | 0 => n | 1 => mrows | _ => 1
